@@ -657,6 +657,11 @@ class BaseProxy(_BaseProxy_):
             kind, result = server._callmethod(
                 None, self._token.id, methodname, args, kwds
             )
+            if kind == '#ERROR':
+                # No pickling happens in this branch: turn the `RemoteException` into
+                # the exception it becomes at the other end of a connection.
+                rebuild, rebuild_args = result.__reduce__()
+                result = rebuild(*rebuild_args)
         else:
             try:
                 conn = self._tls.connection
